@@ -17,4 +17,7 @@ var Harnesses = map[string]func(){
 	"cont.H_Build":            cont.H_Build,
 	"cont.H_Order":            cont.H_Order,
 	"cont.H_Dispose":          cont.H_Dispose,
+	"cont.H_Closed":           cont.H_Closed,
+	"cont.H_Conc":             cont.H_Conc,
+	"cont.H_CloseInCallback":  cont.H_CloseInCallback,
 }
